@@ -100,7 +100,15 @@ func TestVerifC05(t *testing.T) {
 				draw = 0
 			}
 			// multicastDelay draws only when min != max; Int63n(rng) with Int63() = draw yields draw.
-			obs = int64(multicastDelay(rand.New(fixedSrc{draw}), i, min, max))
+			func() {
+				defer func() {
+					if p := recover(); p != nil {
+						obs = -1 // choosing the wait failed (e.g. Int63n with a non-positive argument)
+						tags = append(tags, "panic")
+					}
+				}()
+				obs = int64(multicastDelay(rand.New(fixedSrc{draw}), i, min, max))
+			}()
 			tags = append(tags, "accepted")
 		} else {
 			tags = append(tags, "rejected")
@@ -239,12 +247,97 @@ func TestVerifC05(t *testing.T) {
 			}
 			return verifh.List(ss)
 		}
+		_ = 0
 		out.Emit(verifh.Case{
 			ID:       id,
 			Coq:      verifh.App("CLoop", verifh.Z(int64(min)), verifh.Z(int64(max)), verifh.Z(t0), zs(draws), zs(obs), verifh.Nat(nreq)),
 			Input:    map[string]any{"min_ns": int64(min), "max_ns": int64(max), "start_ns": t0, "requests": nreq},
 			Observed: obs,
 			Tags:     []string{"loop", fmt.Sprintf("static:%v", min == max)},
+		})
+	}
+}
+
+// TestVerifC05Stall: the consumer of the request channel is slow (a stalled scheduler, a frozen process):
+// after the stall the loop must still wait a full interval before every further request.
+func TestVerifC05Stall(t *testing.T) {
+	out := verifh.Open()
+	defer out.Close()
+	r := verifh.NewRand(verifh.Seed(), "C05stall")
+	n := 30
+	if verifh.Thorough() {
+		n = 400
+	}
+	for k := 0; k < n; k++ {
+		id := fmt.Sprintf("stall-%d", k)
+		maxNs := int64(4e9) + r.Int63n(30e9)
+		minS := ""
+		if r.Chance(50) {
+			minS = time.Duration(int64(3e9) + r.Int63n(maxNs*3/4-3e9+1)).String()
+		}
+		nreq := 6 + r.Intn(14)
+		var gaps []int64
+		for j := 0; j < nreq; j++ {
+			g := int64(0)
+			if j > 0 && r.Chance(30) {
+				g = r.Int63n(4*maxNs) + 1 // up to four intervals of stall
+			}
+			gaps = append(gaps, g)
+		}
+		if !out.Wants(id) {
+			continue
+		}
+		min, max, ok := parseIntervals(time.Duration(maxNs).String(), minS)
+		if !ok {
+			continue
+		}
+		var obs, draws []int64
+		var t0 int64
+		synctest.Test(t, func(t *testing.T) {
+			time.Sleep(time.Duration(r.Int63n(3600e9)))
+			cfg := config.Interface{Name: "v0", Advertise: true, MinInterval: min, MaxInterval: max}
+			v := newVAdvertiser(cfg, func() bool { return false })
+			ctx, cancel := context.WithCancel(context.Background())
+			ipC := make(chan netip.Addr)
+			seed := time.Now().UnixNano()
+			t0 = vNow()
+			done := make(chan struct{})
+			go func() { defer close(done); v.ad.multicast(ctx, ipC) }()
+			deadline := time.After(time.Duration(nreq+2)*(max+time.Second) + time.Duration(5*int64(nreq)*maxNs))
+		loop:
+			for j := 0; j < nreq; j++ {
+				time.Sleep(time.Duration(gaps[j]))
+				select {
+				case <-ipC:
+					obs = append(obs, vNow())
+				case <-deadline:
+					break loop
+				}
+			}
+			cancel()
+			<-done
+			p := rand.New(rand.NewSource(seed))
+			for j := 0; j < nreq-1; j++ {
+				if min == max {
+					draws = append(draws, 0)
+				} else {
+					draws = append(draws, p.Int63n(max.Nanoseconds()-min.Nanoseconds()))
+				}
+			}
+		})
+		zs := func(xs []int64) string {
+			ss := make([]string, len(xs))
+			for i, x := range xs {
+				ss[i] = verifh.Z(x)
+			}
+			return verifh.List(ss)
+		}
+		out.Emit(verifh.Case{
+			ID:       id,
+			Coq:      verifh.App("CStall", verifh.Z(int64(min)), verifh.Z(int64(max)), verifh.Z(t0), zs(draws), zs(gaps), zs(obs), verifh.Nat(nreq)),
+			Input:    map[string]any{"min_ns": int64(min), "max_ns": int64(max), "gaps_ns": gaps},
+			Observed: obs,
+			Tags:     []string{"loop", "stalled-consumer"},
 		})
 	}
 }
